@@ -150,8 +150,8 @@ Theorem C01_worker_len :
 Proof. exact worker_len. Qed.
 Print Assumptions C01_worker_len.
 
-(* the loop has no progress guard: once every stage is quiet on empty input and nothing more can
-   be read it never returns (the harness runs the implementation under a watchdog for this) *)
+(* Decomp.v's loop (the code as it stood) has no progress guard: once every stage is quiet on empty
+   input and nothing more can be read it never returns *)
 Theorem C01_worker_spins :
   forall (stage_st : Type) (dstep : stage_st -> bytes -> Z -> stage_st * bytes)
          (quiet : stage_st -> Prop),
@@ -160,6 +160,36 @@ Theorem C01_worker_spins :
       stuck quiet st -> 0 < size -> 0 < mb -> worker_decompress dstep fuel st size mb sched = Err EFuel.
 Proof. exact worker_spins. Qed.
 Print Assumptions C01_worker_spins.
+
+(* the loop as it stands since the repair (MAX_STALLED_ROUNDS = 16; RoundTrip.gworker): whenever it
+   returns it returns what Decomp.v's loop returns, so everything above and below holds of it ... *)
+Theorem C01_guarded_worker_refines :
+  forall (dst : Type) (dstep : dst -> bytes -> Z -> dst * bytes) (failed : dst -> bool)
+         (fuel : nat) (st : dstate dst) (size mb : Z) (sched : list nat) (stalled : Z) r,
+    gworker dstep failed fuel st size mb sched stalled = Ok r ->
+    worker_decompress dstep fuel st size mb sched = Ok r.
+Proof. exact gworker_ok. Qed.
+Print Assumptions C01_guarded_worker_refines.
+
+Theorem C01_guarded_extract_refines :
+  forall (dst : Type) (dstep : dst -> bytes -> Z -> dst * bytes) (failed : dst -> bool)
+         (fuel : nat) (mb : Z) (sizes : list Z) (st : dstate dst) (scheds : list (list nat)) r,
+    gextract dstep failed fuel st sizes mb scheds = Ok r ->
+    extract_members dstep fuel st sizes mb scheds = Ok r.
+Proof. exact gextract_ok. Qed.
+Print Assumptions C01_guarded_extract_refines.
+
+(* ... and where Decomp.v's loop spins, it raises Bad7zFile at the 17th idle round *)
+Theorem C01_guarded_worker_raises :
+  forall (dst : Type) (dstep : dst -> bytes -> Z -> dst * bytes) (failed : dst -> bool)
+         (quiet : dst -> Prop),
+    (forall (s : dst) (ml : Z), quiet s -> snd (dstep s [] ml) = [] /\ quiet (fst (dstep s [] ml))) ->
+    (forall s : dst, quiet s -> failed s = false) ->
+    forall (n fuel : nat) (st : dstate dst) (size mb : Z) (sched : list nat) (stalled : Z),
+      ended dst quiet st -> 0 < size -> 0 < mb -> stalled = 16 - Z.of_nat n -> (n < fuel)%nat ->
+      gworker dstep failed fuel st size mb sched stalled = Err EBad7z.
+Proof. exact gworker_raises. Qed.
+Print Assumptions C01_guarded_worker_raises.
 
 (* the member loop of _extract_single delivers consecutive slices of the decoded stream *)
 Theorem C01_extract_members :
@@ -412,7 +442,15 @@ Example C01_aes_toy_example :
   = Aes.ex_plain 37 ++ Aes.zeros 11.
 Proof. exact Aes.ex_roundtrip. Qed.
 
-(* a spinning Worker.decompress, concretely: declared unpack size 10, stream holds 3 bytes *)
+(* the stall guard, concretely: declared unpack size 10, the stream holds 3 bytes *)
+Example C01_toy_guard_example :
+  (exists st, gworker toy_dstep (fun _ => false) 30 (init_state [toy_st 0 0 []] [10] 3 100 [1; 2; 3]) 3 100 [] 0
+              = Ok (st, [1; 2; 3])) /\
+  gworker toy_dstep (fun _ => false) 30 (init_state [toy_st 0 0 []] [10] 3 100 [1; 2; 3]) 10 100 [] 0 = Err EBad7z /\
+  gworker toy_dstep (fun _ => false) 17 (init_state [toy_st 0 0 []] [10] 3 100 [1; 2; 3]) 10 100 [] 0 = Err EFuel.
+Proof. exact toy_guard_ex. Qed.
+
+(* a spinning Worker.decompress (the loop without the guard), concretely: declared unpack size 10, stream holds 3 bytes *)
 Example C01_toy_worker_spins : forall fuel : nat,
   toy_worker fuel [toy_st 0 0 []] [10] 3 100 [1; 2; 3] 10 100 [] = Err EFuel.
 Proof. exact toy_worker_spins. Qed.
